@@ -28,7 +28,9 @@ def scenarios(tier):
     if not q:
         out.append(dict(name="roms-N6-P1-R2-RK4", fn="run", params=dict(N=6, P=1, R=2, adv="RK4", roms=True), cost=90))
     out.append(dict(name="leaves-grid-N6-P1-R1-EF", fn="run", params=dict(N=6, P=1, R=1, adv="EF", fast=True), cost=30))
-    for tv in ("placeholder", "explicit"):
+    # the warm_start section names only the file (variables defaults to []): what is on the file is restored all the same
+    out.append(dict(name="unlisted-N6-P1-R2-EF", fn="run", params=dict(N=6, P=1, R=2, adv="EF", unlisted=True), cost=30))
+    for tv in ("placeholder", "explicit", "hours", "days"):
         out.append(dict(name=f"timevar-{tv}-N6-P1-R2-EF", fn="run", params=dict(N=6, P=1, R=2, adv="EF", timevar=tv), cost=30))
     for ss in (0, 1):
         out.append(dict(name=f"settled-N6-P1-R2-EF-s{ss}", fn="run", params=dict(N=6, P=1, R=2, adv="EF", settle=True, settle_step=ss), cost=30))
@@ -55,7 +57,7 @@ def _config(W, tmp, sub, p, x0, u, temp, w0, kill, warm=None, first_file=None):
     REF = T0 - 86400
     if p.get("timevar"):
         # a time-typed particle variable, units given with the placeholder or spelled out (the reference time is then explicit)
-        units = "seconds since reference_time" if p["timevar"] == "placeholder" else "seconds since 2000-01-03 00:00:00"
+        units = {"placeholder": "seconds since reference_time", "explicit": "seconds since 2000-01-03 00:00:00", "hours": "hours since reference_time", "days": "days since reference_time"}[p["timevar"]]
         pvars["release_time"] = ovar("f8", units=units, long_name="particle release time")
         svars["release_time"] = "time"
         wvars.append("release_time")
@@ -66,7 +68,7 @@ def _config(W, tmp, sub, p, x0, u, temp, w0, kill, warm=None, first_file=None):
         release=(dict(continuous=True, release_frequency=2 * DT) if not p.get("discrete_off") else dict()),
         ibm=dict(kill=kill, age=True, kill_t0=W.dt(T0), settle=({p["settle_step"]: {0: True}} if p.get("settle") else None)),  # deaths are tied to absolute time, not to the run's own step counter
         output=dict(filename=str(sub / (first_file or "out.nc")), output_period=P * DT, instance_variables=ivars, particle_variables=pvars, numrec=R),
-        warm_start=(dict(filename=str(warm), variables=wvars) if warm else {}),
+        warm_start=(dict(filename=str(warm), variables=([] if p.get("unlisted") else wvars)) if warm else {}),
     )
     if p.get("roms"):
         # real ROMS grid + forcing (level- and frame-dependent currents, scalar field): the forcing is rebuilt at the restart time
@@ -158,7 +160,7 @@ def run(W, p):
             ua, ub = a["atts"].get("release_time", {}).get("units"), b["atts"].get("release_time", {}).get("units")
             ta, tb = va.get("release_time", []), vb.get("release_time", [])
             ok = ua is not None and ub is not None and len(tb) >= len(ta)
-            W.prove(W.all([_eq(W, x_ + _ref(W, ua), y_ + _ref(W, ub)) for x_, y_ in zip(ta, tb)]) if ok else False, "particle-vars-equal",
+            W.prove(W.all([_eq(W, x_ * _usec(ua) + _ref(W, ua), y_ * _usec(ub) + _ref(W, ub)) for x_, y_ in zip(ta, tb)]) if ok else False, "particle-vars-equal",
                     dict(file=name, restart_from=filesA[k], variable="release_time", units_uninterrupted=ua, units_restarted=ub, lenA=len(ta), lenB=len(tb)))
     return (k, tuple(extra))
 
@@ -167,8 +169,12 @@ def _ref(W, units):
     import numpy as np
 
     unit, _, ref = units.partition("since")
-    assert unit.strip() == "seconds", units
+    assert unit.strip() in ("seconds", "hours", "days"), units
     return int((np.datetime64(ref.strip(), "s") - np.datetime64(0, "s")) / np.timedelta64(1, "s"))
+
+
+def _usec(units):
+    return dict(seconds=1, hours=3600, days=86400)[units.partition("since")[0].strip()]
 
 
 def _eq(W, a, b):
